@@ -736,6 +736,31 @@ func TestCorr(t *testing.T) {
 			}
 		}
 	}
+	// cross-type pairs by regrouping path elements (a '/' inside a field of one claim = the separator between two fields of
+	// the other), every feasible regrouping of an honest victim of every type into every other type, each run
+	for vt := 0; vt <= tLegacy; vt++ {
+		for to := 0; to <= tLegacy; to++ {
+			var a spec
+			if vt == tLegacy {
+				a = honestSpec(r, tBatch, 1)
+				a.T = tLegacy
+			} else {
+				a = honestSpec(r, vt, 1)
+			}
+			if a.Compass == "" {
+				a.Compass = "57"
+			}
+			for _, x := range mergeMirrors(a, to) {
+				doPair(build(a), build(x), fmt.Sprintf("regroup:%d->%d", vt, to), map[string]any{"kind": "pair", "a": toJ(a), "b": toJ(x)})
+			}
+		}
+	}
+	for tt := 0; tt < 3; tt++ {
+		for k := 0; k < 6; k++ {
+			a, b, f := hostileEverywhere(r, tt, 1)
+			doPair(build(a), build(b), "hostile-in:"+f, map[string]any{"kind": "pair", "a": toJ(a), "b": toJ(b)})
+		}
+	}
 	// the same body about a chain whose reference id is spelled differently, each run
 	for tt := 0; tt < 3; tt++ {
 		for _, ch := range []string{chainUpper, "Test-chain", " test-chain", "test-chain ", "test_chain"} {
@@ -917,6 +942,20 @@ func TestCorr(t *testing.T) {
 			histOf("amount-alias:"+kind, victim, attacker)
 		}
 	}
+	for vt := 0; vt < 3; vt++ { // the first submitter reports a claim of another type that regroups the honest path elements
+		for to := 0; to < 3; to++ {
+			victim := honestSpec(r, vt, 1)
+			if victim.Compass == "" {
+				victim.Compass = "57"
+			}
+			for _, x := range mergeMirrors(victim, to) {
+				if build(x).ValidateBasic() != nil {
+					continue
+				}
+				histOf(fmt.Sprintf("regroup:%d->%d", vt, to), victim, x)
+			}
+		}
+	}
 	for tt := 0; tt < 3; tt++ { // the first submitter's body differs ONLY in the event nonce
 		victim := honestSpec(r, tt, 1)
 		attacker := victim.clone()
@@ -1056,6 +1095,13 @@ func TestCorr(t *testing.T) {
 			steps, name := genesisHistory(r)
 			doGen(run, envE, K, name, steps)
 		}
+	}
+	// a chain WITH a compass id on record: the first voter's claim carries an empty / another compass id
+	envC := envE.fork()
+	envC.k.VerifC11SetLatestCompassID(envC.ctx, chainA, latestCompass)
+	for i := 0; i < 9; i++ {
+		steps, name := compassRecordHistory(r, i)
+		doGen(run, envC, K, name, steps)
 	}
 	for i := 0; i < 6; i++ {
 		steps, name := chainCaseHistory(r)
